@@ -162,6 +162,22 @@ let op_of (x : sexp) : op =
   | L [A "finalize"] -> OpFinalize
   | _ -> failwith "bad op"
 
+(* ---------------------------------------------------------------- numeric instance *)
+(* The Qc instance of the model's numeric interface, with division by zero reported instead
+   of returning 0 (Coq's convention): such an observation is outside the domain of the
+   properties (the implementation produces nan/inf there) and is skipped by the harness. *)
+exception Div_by_zero_in_model
+
+let is_zero (x : Obj.t) = (match (q_this (Obj.magic x)).qnum with Z0 -> true | _ -> false)
+let ops : numOps =
+  { qcOps with
+    fdiv = (fun x y -> if is_zero y then raise Div_by_zero_in_model else qcOps.fdiv x y);
+    finv = (fun y -> if is_zero y then raise Div_by_zero_in_model else qcOps.finv y) }
+let q_one_step = one_step ops
+let q_run_model = run_model ops
+let q_initial_population = initial_population ops
+let q_env_of = env_of ops
+
 (* ---------------------------------------------------------------- JSON output *)
 let jstr s = "\"" ^ s ^ "\""
 let jlist f l = "[" ^ String.concat "," (List.map f l) ^ "]"
@@ -173,7 +189,19 @@ let jopt f = function None -> "null" | Some x -> f x
 let params_of (x : sexp) = List.map (function L [k; A v] -> (str k, q_of_string v) | _ -> failwith "bad params") (items x)
 let fvec (x : sexp) : Obj.t list = List.map (fun a -> Obj.magic (q2Qc (q_of_string (atom a)))) (items x)
 
-let observe (m : model) (x : sexp) : string =
+exception Obs_timeout
+let obs_budget = (try int_of_string (Sys.getenv "VERIF_MODEL_OBS_SECONDS") with _ -> 4)
+let () = Sys.set_signal Sys.sigalrm (Sys.Signal_handle (fun _ -> raise Obs_timeout))
+
+(* exact rational trajectories of nonlinear models can blow up; such an observation is given a
+   time budget and reported as skipped (never as agreeing) when it exceeds it *)
+let rec observe (m : model) (x : sexp) : string =
+  ignore (Unix.alarm obs_budget);
+  let r = (try observe_ m x with
+           | Div_by_zero_in_model -> "{\"error\":\"divzero\"}"
+           | Obs_timeout -> "{\"error\":\"model-timeout\"}") in
+  ignore (Unix.alarm 0); r
+and observe_ (m : model) (x : sexp) : string =
   match x with
   | L [A "struct"] ->
       "{\"comps\":" ^ jlist jcomp m.m_comps ^ ",\"flows\":"
